@@ -104,6 +104,8 @@ class RegGenericWP(eig.EigWP):
 def vcs():
     name = 'linear_do_vgrad_reg[generic]'
     docs, fn = load(SRC, 'linear::function_t::do_vgrad', 'do_vgrad', None)
+    import parts_smt
+    fn = parts_smt.canon_do_vgrad(fn)       # locals named by the accessor call that initialises them (alpha-renaming)
     wp = RegGenericWP(name)
     wp.const(N, 'Int', 'long')
     wp.const('tsize', 'Int', 'long')
